@@ -91,6 +91,28 @@ JBuild(e) ==
              r.acc.sigsize = SigLen(st) /\ r.acc.spksize = SigPubLen(st) /\ r.acc.cryptosize = CryptoPubLen(ct) /\ r.acc.cpksize = CryptoPubLen(ct), cls) >>
         \o Lifecycle(r, cls)
     [] e.fn \in {"NewKeysAndCert", "NewDestination", "NewRouterIdentityFromKeysAndCert", "NewRouterIdentity"} -> JBuildIdentity(e, cls)
+    [] e.fn = "NewPrivateKeysAndCert" ->
+        IF "nilencpriv" \in DOMAIN m \/ "nilsigpriv" \in DOMAIN m
+        THEN << R("C14", "constructor_rejects_documented_defect", TRUE, ~r.ok, cls) >>
+        ELSE JBuildIdentity(e, cls) \o << R("C14", "private_keys_kept", r.ok, r.privs, cls) >>
+    [] e.fn = "NewCertificate" ->
+        << R("C02", "constructed_certificate_bytes", TRUE, r.ok /\ r.ser = SerCert(CertNull, << >>), cls) >> \o Lifecycle(r, cls)
+    [] e.fn = "NewRouterIdentityWithCompressiblePadding" ->
+        LET valid == SigKnown(m.st) /\ CryptoKnown(m.ct) /\ LibSupportsPair(m.st, m.ct)
+                     /\ Len(m.pub) = CryptoPubLen(m.ct) /\ Len(m.spk) = SigPubLen(m.st)
+            padLen == BlockLen - Len(m.pub) - Len(m.spk)
+            pad == Slice(r.ser, Len(m.pub), padLen)
+            cl == cls \o "/st=" \o ToString(m.st) \o "/ct=" \o ToString(m.ct) IN
+        << R("C09", "constructor_rejects_prohibited", RouterProhibited(m.st, m.ct), ~r.ok, cl),
+           R("C09", "permitted_supported_accepted", ~RouterProhibited(m.st, m.ct) /\ valid, r.ok, cl),
+           R("C14", "constructor_rejects_documented_defect", SigKnown(m.st) /\ CryptoKnown(m.ct) /\ (Len(m.pub) # CryptoPubLen(m.ct) \/ Len(m.spk) # SigPubLen(m.st)), ~r.ok, cl),
+           R("C10", "constructed_block_layout", r.ok /\ r.serok /\ valid,
+             Take(r.ser, Len(m.pub)) = m.pub /\ Slice(r.ser, BlockLen - Len(m.spk), Len(m.spk)) = m.spk, cl),
+           R("C02", "constructed_identity_decodes_to_model", r.ok /\ r.serok /\ valid,
+             LET d == RefReadKAC(r.ser) IN d.ok /\ d.consumed = Len(r.ser) /\ d.st = m.st /\ d.ct = m.ct, cl),
+           \* Proposal 161: the padding the library generates repeats a 32-byte block
+           R("X02", "generated_padding_is_compressible", r.ok /\ r.serok /\ valid, \A i \in 33..padLen : pad[i] = pad[i - 32], cl) >>
+        \o Lifecycle(r, cl)
     [] e.fn = "NewRouterAddress" ->
         LET d == RefRouterAddress(r.ser)
             valid == Len(m.style) \in 1..255 /\ MapEncodable(m.pairs) /\ ~m.expneg IN
